@@ -4,7 +4,8 @@ Protocol (model name c16, see lean/PygModel/USetDriver.lean):
   ulist histories over handles: u.new / u.copy / u.add / u.and / u.sub (element or list operand) / u.addh / u.andh / u.subh;
       in place on a handle: u.append / u.extend / u.iadd / u.insert / u.setitem / u.imul (reply: the contents afterwards)
   dictattr key algebra, stateless: d.sub d.and d.getl d.gett d.get d.add d.relabel d.keys on (DC <cls> (hexkey v)*)
-      cls 1 = pyg_base.Dict, 2 = pyg_base.dictattr, 3 = a subclass of dictattr defined here
+      cls 1 = pyg_base.Dict, 2 = pyg_base.dictattr, 3 = a subclass of dictattr defined here, 4 = a subclass of Dict defined here
+      d.sub with a (T k*) operand is the tuple-PATH form d - (k1, .., kn); d.get / d.gett / d.getl also take dotted keys
   dictattr histories over handles (heap model lean/PygModel/DAHeap.lean): h.new / h.copy / h.sub / h.and / h.add / h.addh / h.getl /
       h.relabel allocate a new handle, h.set / h.setattr / h.del / h.delattr write the target in place, h.get / h.getattr / h.gett /
       h.keys read, h.dump replies with the whole heap.  After EVERY operation (also a failing one) the runner re-reads every handle
@@ -20,7 +21,7 @@ from ..engine import Finding
 
 ID = 'C16'
 TITLE = 'ulist, dictattr and Dict implement ordered set/key algebra without side effects'
-LEAN_FILES = ['Basic', 'USet', 'DictCall', 'DAHeap', 'Tree', 'DictAdd', 'USetDriver', 'USetLemmas', 'DictCallLemmas', 'DictCallOrder', 'DAHeapLemmas',
+LEAN_FILES = ['Basic', 'USet', 'DictCall', 'DAHeap', 'Tree', 'DictAdd', 'DADotted', 'USetDriver', 'USetLemmas', 'DictCallLemmas', 'DictCallOrder', 'DAHeapLemmas',
               'TreeLemmas', 'TreeMerge', 'C16']
 RULE = ('distinct protocol lines on which the implementation returned a value or the error the statement prescribes, '
         'excluding operations on an empty ulist / empty mapping with an empty operand')
@@ -31,7 +32,7 @@ ASSUMPTIONS = ['python == / hash on the generated elements (None, ints, quarter 
                'kwargs_support(f)(**params) passes exactly the declared arguments by name and raises TypeError when one is missing; generated functions are lambda args: c + 1*a1 + 2*a2 + ... and never declare an argument named key',
                'attribute access (getattr/setattr/delattr = item access, AttributeError for KeyError) and in-place writes are modelled on a heap of handles (DAHeap); a name that is a public attribute of the class (DAHeap.shadowed, compared with dir(cls) by a law) yields the bound method, a private name (leading underscore) is written to the instance dict which is not modelled (known finding K1); object identity beyond handles (aliasing of values) is not modelled',
                'Dict + other is tree_update (C15): modelled by DA.addC / PygModel.DictAdd on the C15 model Tree.itemsToTree; with dict values on both sides it is the recursive merge, not {**d, **o}',
-               'tuple paths (d - (a, b)), dotted keys and relabelling onto an existing key are outside the statement and not generated; self-referential callables are outside the acyclic statement and generated for correspondence only (call-selfloop)']
+               'tuple paths (d - (a, b)) and absent dotted keys in d[k] / d[k1, k2] / d[[..]] are modelled on Val-valued mappings (PygModel/DADotted.lean) and generated for the stateless operators; in the handle histories (generic heap model) keys hold no dot; the path walk is generated through dict values, numbers and None only (str / list values on the way: not generated); relabelling onto an existing key is outside the statement and not generated; self-referential callables are outside the acyclic statement and generated for correspondence only (call-selfloop)']
 
 ELEMS = [None, 0, 1, 2, 3, 4, 5, 1.0, 2.0, 2.5, 'a', 'b', 'c', '', (1, 2), (1, 'a'), (2.0, 1), ()]
 KEYS = ['a', 'b', 'c', 'd', 'e', 'x', 'y']
@@ -46,11 +47,14 @@ SHADOW_KEYS = ['keys', 'items', 'copy', 'get', 'update', 'values', 'pop', 'relab
 
 def _cls(n):
     from pyg_base import Dict, dictattr
-    global MyDA
+    global MyDA, MyDict
     if 'MyDA' not in globals():
         class MyDA(dictattr):
             pass
-    return {0: dict, 1: Dict, 2: dictattr, 3: MyDA}[n]
+
+        class MyDict(Dict):         # inherits Dict.__add__ = tree_update (review s2 F1; Dict's own docstring uses such a subclass)
+            pass
+    return {0: dict, 1: Dict, 2: dictattr, 3: MyDA, 4: MyDict}[n]
 
 
 def encd(cls, d):
@@ -84,7 +88,7 @@ def gen_ulist_history(rng):
             elif m == 'imul':
                 lines.append('(c16 u.imul %d %d)' % (h, rng.choice([0, 1, 2, 3])))
             else:
-                lines.append('(c16 u.%s %d %d %s)' % (m, h, rng.choice([0, 0, 1, 2, 3, 5]), e))
+                lines.append('(c16 u.%s %d %d %s)' % (m, h, rng.choice([0, 0, 1, 2, 3, 5, -1, -2, -7]), e))
             continue
         elif r < 0.35:
             lines.append('(c16 u.copy %d)' % h)
@@ -108,7 +112,7 @@ def rand_da(rng, shadow=False):
     if shadow:
         ks = ks[:3] + rng.sample(SHADOW_KEYS, rng.choice([1, 2]))
         rng.shuffle(ks)
-    return rng.choice([1, 1, 2, 2, 3]), {k: rand_val(rng) for k in ks}
+    return rng.choice([1, 1, 2, 2, 3, 4]), {k: rand_val(rng) for k in ks}
 
 
 def rand_other(rng, d):
@@ -120,6 +124,42 @@ def rand_other(rng, d):
     items = list(o.items())
     rng.shuffle(items)
     return dict(items)
+
+
+def _walks(d):
+    """all key paths into the nested dict values of d (length >= 1)"""
+    out = []
+    for k, v in d.items():
+        out.append([k])
+        if isinstance(v, dict):
+            out += [[k] + p for p in _walks(v)]
+    return out
+
+
+def rand_parts(rng, d):
+    """a path of >= 2 keys: an existing one, one that leaves the tree (missing part), one that runs into a flat value"""
+    paths = [p for p in _walks(d) if len(p) >= 2]
+    flat = [k for k, v in d.items() if v is None or (isinstance(v, (int, float)) and not isinstance(v, bool))]
+    r = rng.random()
+    if paths and r < 0.5:
+        return rng.choice(paths)
+    if paths and r < 0.7:
+        p = rng.choice(paths)
+        return p[:-1] + [rng.choice(['q', 'zz', p[-1] + 'x'])]
+    if flat and r < 0.85:
+        return [rng.choice(flat), rng.choice(['x', 'y'])]
+    return [rng.choice([k for k in KEYS + ['zz'] if k not in d] or ['zz2']), rng.choice(['x', 'y'])]
+
+
+def rand_dotted(rng, d):
+    return '.'.join(rand_parts(rng, d))
+
+
+def rand_path(rng, d):
+    p = rand_parts(rng, d)
+    if rng.random() < 0.15:
+        p = p[:1]                       # a one-key path is the plain key deletion
+    return tuple(p)
 
 
 def _has_empty(x):
@@ -143,6 +183,10 @@ def gen_da(rng):
     D = encd(cls, d)
     op = rng.choice(['d.sub', 'd.sub', 'd.and', 'd.and', 'd.getl', 'd.gett', 'd.get', 'd.add', 'd.add', 'd.relabel', 'd.keys'])
     ks = rand_keysel(rng, d)
+    if op == 'd.sub' and rng.random() < 0.25:
+        # d - (k1, .., kn): a tuple is a PATH into the nested mappings; the key is deleted in a COPY of the branch (review s2 F3: the
+        # branch shared with d was written)
+        return dict(tag='d.sub-path', lines=['(c16 d.sub %s %s)' % (D, enc(rand_path(rng, d)))])
     if op in ('d.sub', 'd.and'):
         # an ABSENT key that happens to spell a dotted path into a nested mapping value ('a.b' where d['a'] is a mapping holding 'b')
         # is still just an absent key: nothing is deleted, in particular nothing inside the shared nested value
@@ -151,6 +195,14 @@ def gen_da(rng):
             ks = ks + [rng.choice(dotted)]
             rng.shuffle(ks)
         arg = enc(ks) if rng.random() < 0.7 or not ks else enc(ks[0])
+    elif op in ('d.getl', 'd.gett', 'd.get') and rng.random() < 0.3:
+        # ABSENT string keys holding a dot: d[k] then walks part by part through the values (d['a.x'] is d['a']['x']); KeyError at a
+        # missing part, TypeError when the walk runs into a number / None (review s2 F2: model said KeyError)
+        dk = rand_dotted(rng, d)
+        ks = ks + [dk]
+        rng.shuffle(ks)
+        arg = enc(ks) if op == 'd.getl' else enc(tuple(ks if len(ks) != 1 else ks + ks)) if op == 'd.gett' else enc(dk)
+        return dict(tag=op + '-dotted', lines=['(c16 %s %s %s)' % (op, D, arg)])
     elif op == 'd.getl':
         arg = enc(ks)
     elif op == 'd.gett':
@@ -160,8 +212,8 @@ def gen_da(rng):
     elif op == 'd.add':
         o = rand_other(rng, d)
         arg = enc(o)
-        if cls == 1 and any(isinstance(v, dict) for v in o.values()):
-            tag = 'd.add-Dict-merge' if any(isinstance(d.get(k), dict) and isinstance(v, dict) for k, v in o.items()) else 'd.add-Dict-branch'
+        if cls in (1, 4) and any(isinstance(v, dict) for v in o.values()):
+            tag = ('d.add-Dict-merge' if cls == 1 else 'd.add-DictSubclass-merge') if any(isinstance(d.get(k), dict) and isinstance(v, dict) for k, v in o.items()) else 'd.add-Dict-branch'
             return dict(tag=tag + ('-empty' if any(_has_empty(v) for v in o.values()) else ''), lines=['(c16 d.add %s %s)' % (D, arg)])
     elif op == 'd.relabel':
         olds = rng.sample(KEYS, rng.choice([0, 1, 2]))
@@ -209,11 +261,9 @@ def gen_da_history(rng):
             lines.append('(c16 h.add %d %s)' % (h, enc(o)))
             shadow.append({**d, **o})
         elif op == 'addh':
-            # Dict.__add__ is tree_update (C15), for which only exact dict / Dict / dictattr instances are mappings: Dict + an instance
-            # of any other dict subclass raises ValueError('node item too short').  Not generated (see docs/notes/C16.md).
-            gs = [g for g in range(len(shadow)) if not (classes[h] == 1 and classes[g] == 3)]
-            if not gs:
-                continue
+            # Dict.__add__ is tree_update (C15), for which only exact dict / Dict / dictattr instances are mappings: before fix C16-A1
+            # Dict + an instance of any other dict subclass raised ValueError('node item too short')
+            gs = list(range(len(shadow)))
             g = rng.choice(gs)
             lines.append('(c16 h.addh %d %d)' % (h, g))
             shadow.append({**d, **shadow[g]})
@@ -330,6 +380,9 @@ def all_graphs(n):
 
 
 def generate(rng, tier):
+    for c in (1, 2, 3, 4):
+        # the Lean list DAHeap.shadowed against dir(cls) (the python copy MODEL_SHADOWED is only used by the K1 matcher)
+        yield dict(tag='shadowed-names', lines=['(c16 shadowed %d)' % c])
     n = 350 if tier == 'quick' else 8000
     for _ in range(n):
         yield gen_ulist_history(rng)
@@ -421,7 +474,7 @@ def _run_heap(state, op, args):
             setattr(d, k, v)
             if not (k in d and (dict.__getitem__(d, k) is v or dict.__getitem__(d, k) == v)):
                 snap[h] = (n, _snap(d))
-                return 'attribute write d.%s = v did not write the item d[%r]' % (k, k)
+                return 'attribute write d.%s (class %d) = v did not write the item d[%r]' % (k, n, k)
         elif op == 'h.del':
             del d[k]
         elif op == 'h.delattr':
@@ -431,7 +484,7 @@ def _run_heap(state, op, args):
         elif op == 'h.getattr':
             res = getattr(d, k)
             if k in d and res is not dict.__getitem__(d, k):
-                return 'attribute access d.%s differs from item access d[%r]: %s' % (k, k, 'a bound method' if inspect.isroutine(res) else enc(res))
+                return 'attribute access d.%s (class %d) differs from item access d[%r]: %s' % (k, n, k, 'a bound method' if inspect.isroutine(res) else enc(res))
             if inspect.isroutine(res):
                 return 'ok method'
         elif op == 'h.keys':
@@ -471,7 +524,7 @@ def _check_or(d, o, res, cls, n):
     alt = d | o
     if type(alt) is not cls or dict(alt) != {**d, **o}:
         return 'or-differs-from-update %s' % enc(dict(alt))
-    if (n != 1 or _flat(o)) and dict(alt) != dict(res):
+    if (n not in (1, 4) or _flat(o)) and dict(alt) != dict(res):
         return 'or-differs-from-add %s' % enc(dict(alt))
     return None
 
@@ -545,6 +598,8 @@ def run_line(state, sx):
         heap.append(res)
         state['snap'].append(list(res))
         return 'ok ' + enc(list(res))
+    if op == 'shadowed':
+        return 'ok ' + enc(sorted(a for a in dir(_cls(int(args[0]))) if not a.startswith('_')))
     if op.startswith('h.'):
         return _run_heap(state, op, args)
     if op.startswith('d.'):
@@ -640,7 +695,12 @@ def compare(case, i, line, ir, mr):
     if ci == cm:
         return None
     op = proto.parse(line)[1]
-    if case.get('tag', '').endswith('-empty') or _line_has_empty(line):
+    if op == 'shadowed':
+        a, b = proto.parse(ir[3:])[1:], proto.parse(mr[3:])[1:]
+        if sorted(a) == sorted(b):
+            return None
+        return ('divergence', 'public attributes of class %s: dir(cls) gives %s, the model (DAHeap.shadowed) lists %s' % (line, sorted(map(proto.dec, a)), sorted(map(proto.dec, b))))
+    if op in ('d.add', 'h.add') and (case.get('tag', '').endswith('-empty') or _line_has_empty(line)):
         return ('divergence', 'empty dict values are outside the quantifier of C15 (Dict + other): implementation %s, model %s' % (ir, mr))
     try:
         if _canon_reply(ir, False) == _canon_reply(mr, False):
@@ -661,7 +721,7 @@ def nontrivial(line, reply):
         return True
     if not (reply.startswith('ok') or reply in ('err ValueError', 'err KeyError')):
         return False
-    return '(L)' not in line and '(DC 1)' not in line and '(DC 2)' not in line and '(DC 3)' not in line
+    return '(L)' not in line and '(DC 1)' not in line and '(DC 2)' not in line and '(DC 3)' not in line and '(DC 4)' not in line
 
 
 # ---------------------------------------------------------------- laws on the implementation alone
@@ -700,7 +760,7 @@ def _ref_add(cls_n, d, o):
             else:
                 res[k] = v
         return res
-    return merge(d, o) if cls_n == 1 else {**d, **o}
+    return merge(d, o) if cls_n in (1, 4) else {**d, **o}
 
 
 INPLACE = [('append', lambda l, x, xs, i, n: l.append(x)), ('extend', lambda l, x, xs, i, n: l.extend(xs)),
@@ -710,13 +770,14 @@ INPLACE = [('append', lambda l, x, xs, i, n: l.append(x)), ('extend', lambda l, 
 MODEL_SHADOWED = {1: {'clear', 'copy', 'fromkeys', 'get', 'items', 'keys', 'pop', 'popitem', 'setdefault', 'update', 'values', 'relabel', 'rename',
                       'apply', 'do', 'if_none', 'if_else'}}
 MODEL_SHADOWED[2] = MODEL_SHADOWED[3] = MODEL_SHADOWED[1] - {'apply', 'do', 'if_none', 'if_else'}
+MODEL_SHADOWED[4] = MODEL_SHADOWED[1]
 
 
 def laws(rng, tier, ctx):
     from pyg_base import ulist, Dict, dictattr
     count = 0
     # assumption of the model (DAHeap.shadowed): the public attribute names of the three classes
-    for n in (1, 2, 3):
+    for n in (1, 2, 3, 4):
         count += 1
         names = {a for a in dir(_cls(n)) if not a.startswith('_')}
         if names != MODEL_SHADOWED[n]:
@@ -732,8 +793,10 @@ def laws(rng, tier, ctx):
             u, ref = ulist(xs), _dedup(xs)
             proto_op = {'append': '(c16 u.append 0 %s)' % enc(x), 'extend': '(c16 u.extend 0 %s)' % enc(ys), '+=': '(c16 u.iadd 0 %s)' % enc(ys),
                         'insert': '(c16 u.insert 0 %d %s)' % (i, enc(x)), 'u[i]=x': '(c16 u.setitem 0 %d %s)' % (i, enc(x)),
-                        'u[i:j]=xs': '(c16 u.extend 0 %s)' % enc(ys), '*=': '(c16 u.imul 0 %d)' % n}[name]
-            case = dict(tag='law-ulist-inplace', lines=['(c16 u.new %s)' % enc(xs), proto_op])
+                        'u[i:j]=xs': None, '*=': '(c16 u.imul 0 %d)' % n}[name]
+            case = dict(tag='law-ulist-inplace', lines=['(c16 u.new %s)' % enc(xs)] + ([proto_op] if proto_op else []))
+            if proto_op is None:
+                case['note'] = 'u[%d:%d] = %s (slice assignment has no protocol line: this finding does not replay)' % (i, i + 1, enc(ys))
             count += 1
             try:
                 f(ref, x, ys, i, n)
@@ -844,9 +907,17 @@ def laws(rng, tier, ctx):
 
 
 def _k1(f):
-    """attribute access / attribute write on a name that is an attribute of the class or private (leading underscore)"""
-    m = re.search(r'attribute (?:access|write) d\.(\w+) ', f.detail or '')
-    return bool(m) and (m.group(1).startswith('_') or m.group(1) in MODEL_SHADOWED[1])
+    """K1, exactly (review s2 F4): READING an attribute whose name is a public attribute of the handle's OWN class yields a bound
+    method instead of the item; reading / writing a private name (leading underscore) goes to the instance dict.  Not matched: a
+    shadowed public name whose WRITE does not reach the item (K1 says it does), a wrong non-method value, a name that is no
+    attribute of this class (apply/do/if_none/if_else on a dictattr)."""
+    d = f.detail or ''
+    m = re.search(r'attribute access d\.(\w+) \(class (\d)\) differs from item access d\[[^\]]*\]: (.*)$', d)
+    if m:
+        name, cls, what = m.group(1), int(m.group(2)), m.group(3)
+        return name.startswith('_') or (name in MODEL_SHADOWED[cls] and what.startswith('a bound method'))
+    m = re.search(r'attribute write d\.(\w+) \(class (\d)\) = v did not write the item', d)
+    return bool(m) and m.group(1).startswith('_')
 
 
 MATCHERS = {'attribute_name_is_a_method_or_private': _k1}
